@@ -136,6 +136,9 @@ func init() {
 				closed = true
 				b.Out.CloseWrite()
 			}
+			// everything A may read in a recv / expect step has been written before it: a call that wants more than the
+			// specification says fails at once instead of waiting (the stream cannot be closed yet when an inline answer follows)
+			b.Out.NoBlock = s.Op == "recv" || s.Op == "expectpkt" || s.Op == "expectmsg"
 			switch s.Op {
 			case "peer":
 				sent = append(sent, s.It)
